@@ -16,7 +16,10 @@ def main():
         scratch = '/var/tmp/verif-selftest-%d' % os.getpid()
         shutil.rmtree(scratch, ignore_errors=True)
         os.makedirs(scratch)
-        shutil.copytree(os.path.join(os.environ.get('SELFTEST_REPO', '/repo'), 'src'), os.path.join(scratch, 'src'))
+        base = os.environ.get('SELFTEST_REPO', '/repo')
+        shutil.copytree(os.path.join(base, 'src'), os.path.join(scratch, 'src'))
+        for f in ('Cargo.toml', 'Cargo.lock'):
+            shutil.copy(os.path.join(base, f), scratch)
         p = os.path.join(scratch, 'src', m['file'])
         s = open(p).read()
         if s.count(m['old']) != 1:
@@ -25,7 +28,7 @@ def main():
             continue
         open(p, 'w').write(s.replace(m['old'], m['new']))
         env = dict(os.environ, VERIF_REPO=scratch, VERIF_SCRATCH=scratch + '/w')
-        r = subprocess.run([sys.executable, os.path.join(HERE, 'check.py'), 'all', '--no-evidence'], env=env, stdout=subprocess.PIPE, stderr=subprocess.STDOUT, text=True)
+        r = subprocess.run([sys.executable, os.path.join(HERE, 'check.py'), 'all', '--no-evidence', '--standins'], env=env, stdout=subprocess.PIPE, stderr=subprocess.STDOUT, text=True)
         viol = sorted(set(re.findall(r'VIOLATION property=(\S+)', r.stdout)))
         obl = sorted(set(re.findall(r'obligation=(\S+)', r.stdout)))
         inc = 'INCONCLUSIVE' in r.stdout
